@@ -267,9 +267,39 @@ class Scratch:
         return False
 
 
+_NJIT_CACHE: dict = {}
+
+
+def memoise_njit() -> None:
+    """Speed seam: pyxel re-declares (and therefore re-compiles) a nested @njit function on every
+    Charge.array read.  Compile once per distinct code object instead; behaviour is unchanged."""
+    import numba
+
+    if getattr(numba.njit, "_pyxsim_memo", False):
+        return
+    real = numba.njit
+
+    def njit(*args, **kwargs):
+        if len(args) == 1 and callable(args[0]) and not kwargs:
+            fn = args[0]
+            key = (fn.__code__.co_code, fn.__code__.co_consts, fn.__code__.co_names, fn.__qualname__)
+            if fn.__closure__ is None and key in _NJIT_CACHE:
+                return _NJIT_CACHE[key]
+            disp = real(fn)
+            if fn.__closure__ is None:
+                _NJIT_CACHE[key] = disp
+            return disp
+        return real(*args, **kwargs)
+
+    njit._pyxsim_memo = True
+    numba.njit = njit
+
+
 def reset_process_state() -> None:
     """Everything process-global that pyxel or the probes mutate."""
     import logging
+
+    memoise_njit()
 
     import numpy as np
 
